@@ -49,3 +49,19 @@ func check(c Case) (r pbt.Result) {
 }
 
 func TestCellGoroutinesRaceFreeAndScheduleIndependent(t *testing.T) { pbt.Run(t, gen, check) }
+
+// The boundary cell counts once each under the race detector (a join that misses one goroutine beyond some count).
+func TestCellCountBoundariesRaceFree(t *testing.T) {
+	if pbt.ReplayDirect(t, check) {
+		return
+	}
+	if sh, _ := pbt.Shard(); sh != 0 {
+		t.Skip("enumeration runs in shard 0 only")
+	}
+	for _, n := range vrun.BoundaryCounts {
+		c := Case{V: rapid.Custom(vrun.GenExact("Muskingum", n)).Example(n), Procs: 4, Repeat: 1}
+		if !pbt.Direct(t, c, check) {
+			return
+		}
+	}
+}
